@@ -37,6 +37,26 @@ pub open spec fn helper_path(op: NumericOp, t: NumericTy) -> Seq<char> {
     }
 }
 
+/// the helper for an operator given the planned result type: typed entry points for int / float, the
+/// generic entry point (which dispatches on the run-time operand types) otherwise
+pub open spec fn helper_for_type(op: NumericOp, t: IrType) -> Seq<char> {
+    if op == NumericOp::Mod {
+        match t { IrType::Int => "incan_stdlib :: num :: py_mod_i64"@, IrType::Float => "incan_stdlib :: num :: py_mod_f64"@, _ => "incan_stdlib :: num :: py_mod"@ }
+    } else if op == NumericOp::FloorDiv {
+        match t { IrType::Int => "incan_stdlib :: num :: py_floor_div_i64"@, IrType::Float => "incan_stdlib :: num :: py_floor_div_f64"@, _ => "incan_stdlib :: num :: py_floor_div"@ }
+    } else {
+        "incan_stdlib :: num :: py_div"@
+    }
+}
+
+/// `/`, `//`, `%` ALWAYS go through the runtime helper of the same operator (that is where the documented
+/// semantics and the zero check live), whatever the static operand types are
+pub open spec fn division_plan_ok(plan: BinOpPlan, op: IrBinOp) -> bool {
+    let nop = ir_num(op)->0;
+    (nop == NumericOp::Div || nop == NumericOp::FloorDiv || nop == NumericOp::Mod) ==>
+        (plan.emit matches BinOpEmitKind::StdlibCall { path } && ts_text(path) == helper_for_type(nop, plan.result_ty))
+}
+
 pub open spec fn infix_symbol(op: IrBinOp) -> Seq<char> {
     match op {
         IrBinOp::Add => "+"@, IrBinOp::Sub => "-"@, IrBinOp::Mul => "*"@, IrBinOp::Div => "/"@, IrBinOp::FloorDiv => "/"@,
